@@ -98,7 +98,8 @@ class Custom(Exception):
 
 
 # what f raises: the property speaks of "an exception raised by f", whatever its class
-EXC = {'KeyError': KeyError, 'StopIteration': StopIteration, 'Custom': Custom, 'OSError': OSError}
+EXC = {'KeyError': KeyError, 'StopIteration': StopIteration, 'Custom': Custom, 'OSError': OSError,
+       'RuntimeError': RuntimeError, 'NotImplementedError': NotImplementedError}
 
 
 class PMap(Suite):
@@ -133,6 +134,17 @@ Definition pm_model (c : list Z * nat * bool * nat * list (list nat) * (Z * Z) *
                  which='iter'),
             dict(xs=[7, 3, 5, 9], threads=2, sort=True, chunksize=2, orders=[[1, 0], [1, 0]], a=1, b=0,
                  fails=[9], which='threading'),
+            # f raises RuntimeError / a subclass of it
+            dict(xs=[7, 3, 5, 9], threads=2, sort=True, chunksize=2, orders=[[0, 1], [1, 0]], a=1, b=0, fails=[5], which='threading',
+                 exc='RuntimeError'),
+            dict(xs=[7, 3, 5], threads=3, sort=True, chunksize=1000, orders=[[2, 1, 0]], a=1, b=0, fails=[7], which='threading',
+                 exc='NotImplementedError'),
+            # the progress-bar hint `total` smaller than, larger than and equal to the number of elements
+            dict(xs=[7, 3, 5, 9, 1], threads=2, sort=True, chunksize=2, orders=[[0, 1], [1, 0], [0]], a=1, b=0, fails=[], which='threading',
+                 total=3),
+            dict(xs=[7, 3, 5], threads=1, sort=True, chunksize=1000, orders=[[0, 1, 2]], a=1, b=0, fails=[], which='threading', total=0,
+                 kind='gen'),
+            dict(xs=[7, 3, 5], threads=3, sort=False, chunksize=2, orders=[[1, 0], [0]], a=2, b=1, fails=[], which='threading', total=9),
             # f returns exception objects as values
             dict(xs=[7, 3, 5], threads=2, sort=True, chunksize=0, orders=[[1, 0, 2]], a=1, b=0, fails=[], which='iter',
                  returned_errors=[3]),
@@ -168,6 +180,9 @@ Definition pm_model (c : list Z * nat * bool * nat * list (list nat) * (Z * Z) *
                 fails = [rng.choice(xs)]
             sort = True if which == 'iter' else rng.random() < 0.75
             extra = {}
+            if which == 'threading' and rng.random() < 0.25:
+                # `total` is a hint for the progress bar: exact, too small, too large, zero
+                extra['total'] = rng.choice([len(xs), max(len(xs) - 2, 0), len(xs) + 3, 0, 1])
             if xs and not fails and rng.random() < 0.15:
                 extra['returned_errors'] = rng.sample(xs, min(len(xs), rng.choice([1, 2])))
             if len(chunks) > 1 and threads > 1 and rng.random() < 0.3:
@@ -221,8 +236,9 @@ Definition pm_model (c : list Z * nat * bool * nat * list (list nat) * (Z * Z) *
         try:
             if case['which'] == 'threading':
                 from taskchain.utils.threading import parallel_map
+                extra = {} if case.get('total') is None else {'total': case['total']}
                 res = parallel_map(f, iterable_of(xs, case.get('kind', 'list')), threads=case['threads'], sort=case['sort'],
-                                   use_tqdm=False, chunksize=case['chunksize'])
+                                   use_tqdm=False, chunksize=case['chunksize'], **extra)
             else:
                 from taskchain.utils.iter import parallel_map
                 res = parallel_map(f, iterable_of(xs, case.get('kind', 'list')), threads=case['threads'])
@@ -265,6 +281,8 @@ Definition pm_model (c : list Z * nat * bool * nat * list (list nat) * (Z * Z) *
                 return 'an exception raised by f was not propagated'
             if obs['error'] not in fails or obs.get('error_type', 'KeyError') != case.get('exc', 'KeyError'):
                 return f'propagated exception {obs.get("error_type")}({obs["error"]}) is not one raised by f'
+            if len(set(obs['calls'])) != len(obs['calls']):
+                return f'f was called more than once for an element although it raised: calls={obs["calls"]}'
             return None
         if 'result' not in obs:
             return 'raised although f never raises'
